@@ -390,6 +390,43 @@ func targets() []*target {
 			comment: "(returns flags)", calls: map[string]callSpec{"Verbose": {ignore: true}},
 			params: []string{"(g_flags : Z)", "(flagsToAdd : list Z)"}, result: "Z", final: "g_flags"},
 
+		// ---- the small append helpers of PrintCtx: the renderings `s_buf ++ [zb b]` / `s_buf ++ str` the other targets declare
+		// for pcAppendByte / pcAppendString are what these functions do, given that WriteByte / WriteString append (C19) ----
+		{pkg: slogPkg, recv: "PrintCtx", fn: "pcAppendByte", coq: "pc_append_byte", file: "Layout", strict: true, fallback: "LayoutRef.pc_append_byte_ref",
+			comment: "(returns s.buf; None = panic)", panicT: "None", retfmt: "Some (%s)", effects: []string{"s_buf"},
+			tymap: map[string]string{"[]byte": "bytes", "error": "option unit"},
+			calls: map[string]callSpec{
+				"*PrintCtx.preCheck": {ignore: true}, "*PrintCtx.checkerr": {unwrap: true}, "hintInternal": {ignore: true},
+				"*PrintCtx.WriteByte": {state: "s_buf ++ [zb %0]"}, "*PrintCtx.WriteString": {state: "s_buf ++ %0"},
+			},
+			params: []string{"(s_buf : bytes)", "(b : Z)"}, result: "option bytes", final: "Some (s_buf)"},
+		{pkg: slogPkg, recv: "PrintCtx", fn: "pcAppendStringValue", coq: "pc_append_string_value", file: "Layout", strict: true, fallback: "LayoutRef.pc_append_string_value_ref",
+			comment: "(returns s.buf; None = panic)", panicT: "None", retfmt: "Some (%s)", effects: []string{"s_buf"},
+			tymap: map[string]string{"[]byte": "bytes", "error": "option unit"},
+			calls: map[string]callSpec{
+				"*PrintCtx.preCheck": {ignore: true}, "*PrintCtx.checkerr": {unwrap: true}, "hintInternal": {ignore: true},
+				"*PrintCtx.WriteByte": {state: "s_buf ++ [zb %0]"}, "*PrintCtx.WriteString": {state: "s_buf ++ %0"},
+			},
+			params: []string{"(s_buf : bytes)", "(str : bytes)"}, result: "option bytes", final: "Some (s_buf)"},
+		{pkg: slogPkg, recv: "PrintCtx", fn: "pcAppendColon", coq: "pc_append_colon", file: "Layout", strict: true, fallback: "LayoutRef.pc_append_colon_ref",
+			comment: "(returns s.buf; None = panic)", panicT: "None", retfmt: "Some (%s)", effects: []string{"s_buf"},
+			tymap: map[string]string{"[]byte": "bytes", "error": "option unit"},
+			calls: map[string]callSpec{
+				"*PrintCtx.preCheck": {ignore: true}, "*PrintCtx.checkerr": {unwrap: true}, "hintInternal": {ignore: true},
+				"*PrintCtx.WriteByte": {state: "s_buf ++ [zb %0]"}, "*PrintCtx.WriteString": {state: "s_buf ++ %0"},
+				"*PrintCtx.pcAppendByte": {state: "s_buf ++ [zb %0]"},
+			},
+			params: []string{"(s_jsonMode : bool)", "(s_buf : bytes)"}, result: "option bytes", final: "Some (s_buf)"},
+		{pkg: slogPkg, recv: "PrintCtx", fn: "pcAppendComma", coq: "pc_append_comma", file: "Layout", strict: true, fallback: "LayoutRef.pc_append_comma_ref",
+			comment: "(returns s.buf; None = panic)", panicT: "None", retfmt: "Some (%s)", effects: []string{"s_buf"},
+			tymap: map[string]string{"[]byte": "bytes", "error": "option unit"},
+			calls: map[string]callSpec{
+				"*PrintCtx.preCheck": {ignore: true}, "*PrintCtx.checkerr": {unwrap: true}, "hintInternal": {ignore: true},
+				"*PrintCtx.WriteByte": {state: "s_buf ++ [zb %0]"}, "*PrintCtx.WriteString": {state: "s_buf ++ %0"},
+				"*PrintCtx.pcAppendByte": {state: "s_buf ++ [zb %0]"},
+			},
+			params: []string{"(s_jsonMode : bool)", "(s_buf : bytes)"}, result: "option bytes", final: "Some (s_buf)"},
+
 		// ---- the skeleton of printImpl after the blank-line rule (C02, C04-C06, C14): which part printers run,
 		// in what order, under which mode bit / flag; the level colours; ONE printOut of pc.Bytes() after End.
 		// The part printers are parameters over the context pc (LayoutRef.pcs)
